@@ -20,7 +20,7 @@ ASSUMPTIONS = [
 ]
 EXHAUSTIVE_WHEN_PARTS = True
 
-FORMS = ["numeric", "backward_label", "forward_label", "backward_label_expr", "backward_label_macro", "numeric_bank0", "backward_label_after_incbin", "symbol_target_assigned_later", "qualified_target", "label_in_macro_applied_twice", "backward_label_behind_incbin", "target_outside_hollow_scopes", "after_application_expanding_to_nothing"]
+FORMS = ["numeric", "backward_label", "forward_label", "backward_label_expr", "backward_label_macro", "numeric_bank0", "backward_label_after_incbin", "symbol_target_assigned_later", "qualified_target", "label_in_macro_applied_twice", "backward_label_behind_incbin", "target_outside_hollow_scopes", "after_application_expanding_to_nothing", "macro_argument_names_later_nearer_label", "label_reused_by_a_loop_body"]
 RELOCS = ["none", "reloc_rom", "reloc_rom_near", "reloc_ram", "org_ram", "reloc_ram_near_storage", "resume_after_reloc", "resume_after_reloc_gap"]
 
 
@@ -149,6 +149,21 @@ def build(rom: str, m: str, d: int, place: int, form: str, reloc: str):
         body = [".if 1 {\n" + inner + "}\n", ".if 0 {\nnop\n} else {\n" + inner + "}\n", inner][d % 3]
         src = head + ".macro poll() {\n" + body + "}\npoll()\npoll()\n"
         return src, adv(rom, run, n), run, adv(rom, stored, n)
+    if form == "macro_argument_names_later_nearer_label":
+        # the branch stands in a macro, its target is the argument; the call site's block defines that label further down while an outer
+        # label of the same name stands before: the block's own label is meant (forward branch)
+        n = d
+        if n < 0:
+            return None
+        src = head + f".macro bq(pt) {{\n{m} pt\n}}\n" + "tgt:\nnop\n{\nbq(tgt)\n" + filler(n) + "tgt:\n}\n"
+        return src, adv(rom, run, 1), adv(rom, run, 1 + 2 + n), adv(rom, stored, 1)
+    if form == "label_reused_by_a_loop_body":
+        # a loop body has a label of the same name as the enclosing one: after the loop the name means the enclosing label again
+        n = -d - 4
+        if n < 0:
+            return None
+        src = head + "tgt:\n.for kq := 0, 2 {\nnop\ntgt:\n}\n" + filler(n) + f"{m} tgt\n"
+        return src, adv(rom, run, 2 + n), run, adv(rom, stored, 2 + n)
     if form == "after_application_expanding_to_nothing":
         # a helper whose body is switched off is applied first; the loop lives in one named scope, the branch in the next one, to the first's label
         n = -d - 2
